@@ -339,6 +339,20 @@ func portableTarget(linkPath, target string) bool {
 	return true
 }
 
+func whyNotPortable(linkPath, target string) string {
+	switch {
+	case target == "":
+		return "empty"
+	case len(target) > 247:
+		return "too long"
+	case strings.ContainsAny(target, ":\\"):
+		return "colon or backslash"
+	case target[0] == '/':
+		return "absolute"
+	}
+	return "resolves above the root"
+}
+
 // walk is the independent reference scan.
 func (d *diskState) walk(abs, rel string, top bool) *core.Entry {
 	st, err := os.Lstat(abs)
@@ -641,6 +655,16 @@ func (e *diskEndpoint) Scan(ctx context.Context, ancestor *core.Entry, full bool
 		}
 		h.s.Count("probe.scans_checked_against_walker", 1)
 	}
+	// C16: every link a scan accepts stays inside the root (POSIX lexical
+	// resolution, judged by the harness's own rule).
+	walk(snap.Content, "", func(p string, x *core.Entry) {
+		if x.Kind == core.EntryKind_SymbolicLink {
+			h.s.Count("probe.links_accepted_by_scan", 1)
+			if !portableTarget(p, x.Target) {
+				h.s.Violate("C16", "escaping-link-accepted", "scan", "the %s scan accepted the symbolic link %q -> %q, which is not a portable target inside the root (%s)", e.side, p, x.Target, whyNotPortable(p, x.Target))
+			}
+		}
+	})
 	d.mu.Lock()
 	d.lastSnap[e.side] = snap.Content
 	d.mu.Unlock()
@@ -755,6 +779,22 @@ func (e *diskEndpoint) Transition(ctx context.Context, transitions []*core.Chang
 				}
 			})
 		}
+	}
+	// C16: links created by this transition.
+	for i, t := range transitions {
+		walk(results[i], t.Path, func(p string, r *core.Entry) {
+			if r.Kind != core.EntryKind_SymbolicLink {
+				return
+			}
+			rel := strings.TrimPrefix(strings.TrimPrefix(p, t.Path), "/")
+			if old := lookup(t.Old, rel); old != nil && old.Kind == core.EntryKind_SymbolicLink && old.Target == r.Target {
+				return // already there before
+			}
+			h.s.Count("probe.links_created_by_transition", 1)
+			if !portableTarget(p, r.Target) {
+				h.s.Violate("C16", "escaping-link-created", "transition", "the %s transition created the symbolic link %q -> %q, which is not a portable target inside the root (%s)", e.side, p, r.Target, whyNotPortable(p, r.Target))
+			}
+		})
 	}
 	h.s.Logf("ctl."+e.side, "transition %d changes -> %d problems missing=%v -> %s", len(transitions), len(problems), missing, render(tree))
 	return results, problems, missing, err
